@@ -127,6 +127,8 @@ int main(int argc, char** argv)
         } else { fprintf(out, "{\"op\":\"harness-error\",\"what\":\"unknown op\"}\n"); break; }
 
         long filled = (long) sb.verifFilled(), limit = (long) sb.verifLimit();
+        if (filled > 1000000000L || filled < 0) filled = 1000000000L;     // (TLC integers are 32 bit)
+        if (limit > 1000000000L || limit < 0) limit = 1000000000L;
         long textlen = (long) strnlen(g_base, (size_t) g_cap);     // == cap: no terminator inside the buffer
         bool canary = sb.verifCanaryIntact();
         long maxend = 0;
